@@ -728,7 +728,7 @@ func main() {
 		cases = append(cases, gen.Case{Term: caseTerm(j.In, obs), Kind: j.Kind, Input: j.In, Obs: obs})
 	}
 	extra := map[string]any{"workers": workers, "cases_lost_to_worker_crash": lost, "run_s": time.Since(t0).Seconds()}
-	if err := gen.WriteCases(o, "C02", "From Verif Require Import TaskCmd.", "c02_case", "report02", cases, extra); err != nil {
+	if err := gen.WriteCases(o, "C02", "From Verif Require Import Common RoleTree TaskCmd.", "c02_case", "report02", cases, extra); err != nil {
 		fmt.Fprintln(os.Stderr, err)
 		os.Exit(2)
 	}
